@@ -78,6 +78,7 @@ class TLab(Lab):
         self.depth_limit = depth_limit
         self.action_seq = []  # value of the global seq counter at the start of every scheduled action
         self.watch = None  # the top-level DProbe
+        self.dispose_in = None  # (slot, k): dispose the watched probe from inside the k-th call of that user callback
         self.continuations = {}  # events after dispose() that are the tail of a handler already running at dispose
 
     def step(self):
@@ -141,6 +142,15 @@ class TLab(Lab):
             f = f.f_back
         if not new_delivery:
             self.continuations[key] = "tail"
+            return
+        # a new delivery inside a library subscribe() call that was already in progress when dispose() was called:
+        # the observers wired by that call cannot be reached (its disposable has not been returned yet)
+        while f is not None:
+            c = f.f_code
+            if c.co_name == "subscribe" and "/reactivex/" in c.co_filename.replace("\\", "/"):
+                self.continuations[key] = "within-subscribe-in-progress"
+                return
+            f = f.f_back
 
     def in_window(self, ds, seq):
         """No scheduled action started between the dispose (seq ds) and the event (seq): same synchronous stack."""
@@ -177,9 +187,18 @@ class OBuilder(Builder):
         if not hasattr(lab, "note_event"):
             return w
 
+        slot = self.slot(s)
+
         def hooked(*args):
             lab.note_event(("cb", len(lab.cb_log)))
-            return w(*args)
+            di = lab.dispose_in
+            if di is None or di[0] != slot:
+                return w(*args)
+            k = lab.cb_count.get(slot, 0)
+            r = w(*args)
+            if di[1] == k and lab.watch is not None:
+                lab.watch.dispose()  # the user's own callback (teardown code, mapper, ...) unsubscribes the subscriber
+            return r
 
         hooked.__name__ = w.__name__
         return hooked
@@ -351,7 +370,9 @@ class DProbe(Probe):
             self.dispose_frames.append(f)
             self.dispose_frame_ids.add(id(f))
             c = f.f_code
-            if c.co_name == "subscribe" and "/reactivex/" in c.co_filename.replace("\\", "/"):
+            if c.co_name in ("subscribe", "dispose") and "/reactivex/" in c.co_filename.replace("\\", "/"):
+                # a library subscribe() or dispose() is in progress below us (e.g. dispose() called from user teardown
+                # code that runs during a disposal): it finishes its work only when the stack unwinds
                 self.subscribing = True
             if c.co_name == "_subscribe_core":
                 src = f.f_locals.get("self")
@@ -422,7 +443,7 @@ def gw_index(pipe):
     """Largest index of a group/window-producing operator in the pipeline, or None."""
     g = None
     for i, (n, _) in enumerate(pipe["ops"]):
-        tags = OPS[n].tags if n in OPS else (("group",) if n.startswith("group_by") else ())
+        tags = OPS[n].tags if n in OPS else (("group",) if n.startswith("group_by") else ("window",) if n.startswith("window") else ())
         if "window" in tags or "group" in tags:
             g = i
     return g
